@@ -38,6 +38,14 @@ pub fn lex_canon(n: &LexNarsese) -> String {
     }
 }
 
+pub fn lex_size(t: &LexTerm) -> usize {
+    match t {
+        LexTerm::Atom { .. } => 1,
+        LexTerm::Compound { terms, .. } | LexTerm::Set { terms, .. } => 1 + terms.iter().map(lex_size).sum::<usize>(),
+        LexTerm::Statement { subject, predicate, .. } => 1 + lex_size(subject) + lex_size(predicate),
+    }
+}
+
 pub fn lex_depth(t: &LexTerm) -> usize {
     match t {
         LexTerm::Atom { .. } => 1,
@@ -104,6 +112,18 @@ impl LexGen {
     }
 
     pub fn term(&self, rng: &mut Rng, depth: usize) -> LexTerm {
+        // bounded size: the lexical parser is quadratic in the input length, so values beyond a few
+        // hundred nodes (thousands of characters) are regenerated smaller
+        for _ in 0..4 {
+            let t = self.term_unbounded(rng, depth);
+            if lex_size(&t) <= 300 {
+                return t;
+            }
+        }
+        self.term_in(rng, depth.min(3), true)
+    }
+
+    fn term_unbounded(&self, rng: &mut Rng, depth: usize) -> LexTerm {
         if !self.arity_valid && rng.chance(1, 60) {
             // extreme profiles: a chain 20..80 deep, or 20..100 composites side by side
             if rng.chance(1, 2) {
@@ -144,7 +164,7 @@ impl LexGen {
                         rng.range(1, 4)
                     }
                 } else {
-                    if rng.chance(1, 40) { rng.range(7, 14) } else { rng.range(1, 6) }
+                    if depth <= 2 && rng.chance(1, 40) { rng.range(7, 14) } else { rng.range(1, 6) }
                 };
                 let is_image = c == e.compound.connecter_image_extension || c == e.compound.connecter_image_intension;
                 let mut terms: Vec<LexTerm> = (0..n).map(|_| self.term_in(rng, depth - 1, !(is_image && self.arity_valid))).collect();
